@@ -252,6 +252,17 @@ def _run_built(case, cls, kw, exact, outer):
         res["ser_exc"] = f"{type(e).__name__}: {e}"[:200]
         return res
     res["impure"] = pure_json_path(doc)
+    if not case.get("compact"):
+        # the documented JSON form, written down independently of the Serializer (image, below)
+        try:
+            want = image_doc(case, kw)
+            if outer is not None:
+                want = {"inner": want, "tag": ""}
+            res["form_ok"] = _canon_sets(case, doc, outer is not None) == _canon_sets(case, want, outer is not None)
+            if not res["form_ok"]:
+                res["form_want"] = repr(want)[:300]
+        except Exception as e:
+            res["form_ok"] = f"{type(e).__name__}: {e}"[:200]
     try:
         text = json.dumps(doc)
     except Exception as e:
@@ -274,6 +285,18 @@ def _run_built(case, cls, kw, exact, outer):
     return res
 
 
+def _canon_sets(case, doc, nested):
+    """arrays that came from a Set field sorted (set iteration order is not part of the contract)"""
+    body = doc.get("inner") if nested and isinstance(doc, dict) else doc
+    if not isinstance(body, dict):
+        return doc
+    body = dict(body)
+    for f in case["fields"]:
+        if f["wrap"] == "set" and isinstance(body.get(f["name"]), list):
+            body[f["name"]] = sorted(body[f["name"]], key=repr)
+    return dict(doc, inner=body) if nested else body
+
+
 def judge(case, impl):
     fails = []
     if "skip" in impl:
@@ -284,6 +307,8 @@ def judge(case, impl):
         return fails
     if impl.get("impure"):
         fails.append((f"extras:not-pure-json:{site}", f"serialized document holds a non-JSON value at {impl['impure']}: {impl.get('doc')}"))
+    if impl.get("form_ok") not in (None, True):
+        fails.append((f"extras:serialized-form-differs:{site}", f"Serializer gave {impl.get('doc')}, the documented JSON form is {impl.get('form_want', impl.get('form_ok'))}"))
     if "dumps_exc" in impl:
         fails.append((f"extras:json-dumps-raises:{site}", f"json.dumps refused the serialized document: {impl['dumps_exc']}"))
         return fails
@@ -374,6 +399,250 @@ def judge_corrupt(case, impl):
         return [(f"extras:wrong-exception:{impl['exc']}:{impl['site']}",
                  f"Deserializer rejected {impl['doc']} with {impl['exc']} ({impl['msg']}) instead of TypeError/ValueError")]
     return []
+
+
+# ------------------------------------------------------------------ C06: BOTH directions of "exactly the images"
+#
+# The documented JSON form of the extension kinds, written down independently of the Serializer (`image`), and
+# the documented reading of a JSON value (`lift`): collections are reshaped (array -> list / deque / set / tuple,
+# object -> dict), an Enum serialized by value denotes the member whose value equals (Python ==) the JSON value,
+# every other leaf is handed to the constructor as it is (the constructor of DecimalNumber / DateField / DateTime /
+# Enum-by-name does the conversion itself).  Statement executed: the Deserializer accepts the document exactly
+# when the constructor accepts the lifted keyword arguments, and the two instances are equal; for the image of
+# a valid instance both must accept and give back that instance.
+
+SHAPES = {"bare": "L", "optional": ("opt", "L"), "array": ("arr", "L"), "deque": ("deq", "L"), "set": ("set", "L"),
+          "map": ("map", "L"), "tuple2": ("tup2", "L"), "array-of-array": ("arr", ("arr", "L")),
+          "map-of-array": ("map", ("arr", "L")), "anyof-then-int": ("anyint", "L"),
+          "array-of-optional": ("arr", ("opt", "L")), "map-of-optional": ("map", ("opt", "L"))}
+
+# number-typed documents of several magnitudes (epoch-like ones included: DateTime reads an int between 1e9 and
+# 2e9 as a timestamp, and so does its constructor; a float is neither a str nor an int)
+CORRUPTIONS += [0, 1, 2, 0.0, 1.0, 2.0, 1600000000, 1600000000.5, 1.6e9, 999999999, 2000000001, 1000000000000,
+                -0.5, False, "1.5", "0", "A", "OFF", "x", "01/31/20 07:15:45", "2020-01-31", "nan", "sNaN", "Infinity"]
+NAN_STRINGS = ("nan", "sNaN")
+
+
+class NoLift(Exception):
+    pass
+
+
+def image_leaf(leaf, v):
+    if leaf.startswith("decimal"):
+        return float(v)
+    if leaf.startswith("enum-by-value"):
+        return v.value
+    if leaf.startswith("enum-by-name"):
+        return v.name
+    if leaf == "date":
+        return v.strftime("%Y-%m-%d")
+    if leaf == "datetime":
+        return v.strftime("%m/%d/%y %H:%M:%S")
+    return v
+
+
+def image(shape, leaf, v):
+    if shape == "L":
+        return image_leaf(leaf, v)
+    tag, sub = shape
+    if tag == "opt":
+        return None if v is None else image(sub, leaf, v)
+    if tag in ("arr", "deq", "set"):
+        return [image(sub, leaf, x) for x in v]
+    if tag == "map":
+        return {k: image(sub, leaf, x) for k, x in v.items()}
+    if tag == "tup2":
+        return [image(sub, leaf, v[0])] + list(v[1:])
+    if tag == "anyint":
+        return v if isinstance(v, int) and not isinstance(v, enum.Enum) and not isinstance(v, bool) else image(sub, leaf, v)
+    raise ValueError(tag)
+
+
+def lift_leaf(leaf, j):
+    """alternatives a JSON value denotes for the leaf (empty: none)"""
+    if leaf.startswith("enum-by-value:"):
+        try:
+            hash(j)
+        except TypeError:
+            return []
+        return [m for m in ENUMS[leaf.split(":")[1]] if m.value == j][:1]
+    return [j]
+
+
+def _product(lists):
+    out = [[]]
+    for alts in lists:
+        out = [p + [a] for p in out for a in alts]
+        if len(out) > 64:
+            out = out[:64]
+    return out
+
+
+def lift(shape, leaf, j):
+    import collections
+    if shape == "L":
+        return lift_leaf(leaf, j)
+    tag, sub = shape
+    if tag == "opt":
+        return [None] if j is None else lift(sub, leaf, j)
+    if tag in ("arr", "deq", "set"):
+        if not isinstance(j, list):
+            return []
+        out = []
+        for xs in _product([lift(sub, leaf, x) for x in j]):
+            try:
+                out.append(list(xs) if tag == "arr" else collections.deque(xs) if tag == "deq" else set(xs))
+            except TypeError:
+                pass
+        return out
+    if tag == "map":
+        if not isinstance(j, dict):
+            return []
+        keys = list(j)
+        return [dict(zip(keys, xs)) for xs in _product([lift(sub, leaf, j[k]) for k in keys])]
+    if tag == "tup2":
+        if not isinstance(j, list):
+            return []
+        if not j:
+            return [()]
+        return [tuple([a] + j[1:]) for a in lift(sub, leaf, j[0])]
+    if tag == "anyint":
+        # AnyOf[leaf, Integer]: what the document denotes for the leaf, or - an integer document - itself
+        return lift(sub, leaf, j) + ([j] if isinstance(j, int) else [])
+    raise ValueError(tag)
+
+
+def _build_plain(case):
+    body, kw = {}, {}
+    for f in case["fields"]:
+        body[f["name"]] = build_field(f["leaf"], f["wrap"])
+        if not f.get("unset"):
+            kw[f["name"]] = build_value(f["leaf"], f["wrap"], f["picks"] or [0])
+    body["_required"] = [f["name"] for f in case["fields"] if f["wrap"] != "optional"]
+    if case.get("ignore_none"):
+        body["_ignore_none"] = True
+    return type("X", (Structure,), body), kw
+
+
+def image_doc(case, kw):
+    return {f["name"]: image(SHAPES[f["wrap"]], f["leaf"], kw[f["name"]]) for f in case["fields"] if f["name"] in kw}
+
+
+def image_cases(rng, n):
+    """the image of a valid instance, uncorrupted: must be accepted, with the instance it came from"""
+    return [dict(c, suite="extras-corrupt", nested=False, corrupt=None) for c in gen_cases(rng, n) if not c.get("compact")]
+
+
+def directed_image_cases():
+    return [dict(c, suite="extras-corrupt", corrupt=None) for c in directed_cases()] + \
+        [dict(c, suite="extras-corrupt", corrupt=None, fields=[dict(c["fields"][0], picks=[1, 0, 1])]) for c in directed_cases()]
+
+
+def _crosstype(xs):
+    for i, a in enumerate(xs):
+        for b in xs[i + 1:]:
+            try:
+                if a == b and type(a) is not type(b):
+                    return True
+            except Exception:
+                pass
+    return False
+
+
+def run_exact(case):
+    """C06 on the extension kinds: Deserializer(doc) vs constructor(lift(doc))"""
+    try:
+        cls, kw = _build_plain(case)
+        x = cls(**kw)
+    except Exception as e:
+        return {"skip": f"definition/construction: {type(e).__name__}: {e}"[:200]}
+    try:
+        doc = image_doc(case, kw)
+        json.dumps(doc)
+    except Exception as e:
+        return {"skip": f"no image: {type(e).__name__}: {e}"[:200]}
+    res = {"kinds": [f"{f['wrap']}>{f['leaf']}" for f in case["fields"]]}
+    exactleaf = all(LEAVES[f["leaf"]][2] for f in case["fields"])
+    if case.get("corrupt") is None:
+        res["site"] = "+".join(sorted(set(res["kinds"])))[:120]
+        res["is_image"] = True
+    else:
+        fi, ci, which = case["corrupt"]
+        name = case["fields"][fi]["name"]
+        if name not in doc:
+            return {"skip": "field unset"}
+        doc[name] = _replace_leaf(doc[name], CORRUPTIONS[ci], which)
+        res["site"] = f"{case['fields'][fi]['wrap']}>{case['fields'][fi]['leaf']}"
+        res["nan"] = CORRUPTIONS[ci] in NAN_STRINGS and case["fields"][fi]["leaf"] == "decimal-bounded"
+    res["doc"] = repr(doc)[:300]
+    # an array for a Set field holding values that are == but of different JSON type (0.0 / false): as a Python set
+    # they collapse before the constructor can see them, so 'the set this array denotes' is ambiguous
+    res["ambiguous_set"] = any(f["wrap"] == "set" and isinstance(doc.get(f["name"]), list) and _crosstype(doc[f["name"]]) for f in case["fields"])
+    # the constructor on the lifted document
+    alts = []
+    for f in case["fields"]:
+        if f["name"] not in doc or doc[f["name"]] is None:
+            alts.append([("absent", None)])
+        else:
+            alts.append([("v", a) for a in lift(SHAPES[f["wrap"]], f["leaf"], doc[f["name"]])])
+    expected = None
+    for combo in _product(alts):
+        try:
+            expected = cls(**{f["name"]: a for f, (t, a) in zip(case["fields"], combo) if t == "v"})
+            break
+        except (TypeError, ValueError):
+            continue
+        except Exception as e:
+            res["ctor_exc"] = type(e).__name__
+            continue
+    res["ctor"] = "accepted" if expected is not None else "rejected"
+    y = None
+    try:
+        y = Deserializer(cls).deserialize(json.loads(json.dumps(doc)))
+        res["out"] = "accepted"
+    except Exception as e:
+        res["out"] = "rejected"
+        res["exc"] = type(e).__name__
+        res["documented_exc"] = isinstance(e, (TypeError, ValueError))
+        res["msg"] = str(e)[:200]
+    nan_doc = case.get("corrupt") is not None and CORRUPTIONS[case["corrupt"][1]] in NAN_STRINGS
+    if y is not None and not nan_doc:       # (a NaN is not equal to itself; comparing a signalling NaN raises)
+        if expected is not None:
+            res["equal_ctor"] = bool(y == expected)
+        if res.get("is_image") and exactleaf:
+            res["equal_orig"] = bool(y == x)
+    return res
+
+
+def judge_exact(case, impl):
+    if "skip" in impl:
+        return []
+    fails = []
+    site = impl["site"]
+    if impl["out"] == "rejected" and not impl["documented_exc"]:
+        # (one stable key, whatever the wrapper, for a NaN compared with the bound of a DecimalNumber)
+        where = "nan-vs-bound:decimal-bounded" if impl.get("nan") and impl["exc"] == "InvalidOperation" else site
+        fails.append((f"extras:wrong-exception:{impl['exc']}:{where}",
+                      f"Deserializer rejected {impl['doc']} with {impl['exc']} ({impl['msg']}) instead of TypeError/ValueError"))
+    # AnyOf[DecimalNumber(bounds), Integer]: both options read a JSON number, and the first one deserializes every
+    # number (its bounds are the constructor's business): indistinguishable options are outside the statement
+    ambiguous = any(f["wrap"] == "anyof-then-int" and f["leaf"] == "decimal-bounded" for f in case["fields"]) or impl.get("ambiguous_set")
+    if impl["ctor"] == "accepted" and impl["out"] == "rejected":
+        if not ambiguous:
+            fails.append((f"extras:rejects-image:{site}",
+                          f"the constructor accepts what the document {impl['doc']} denotes, but the Deserializer raises {impl['exc']}: {impl['msg']}"))
+    elif impl["ctor"] == "rejected" and impl["out"] == "accepted":
+        fails.append((f"extras:accepts-non-image:{site}",
+                      f"the Deserializer accepts {impl['doc']} although the constructor rejects what it denotes"))
+    elif impl.get("equal_ctor") is False:
+        fails.append((f"extras:differs-from-constructor:{site}",
+                      f"the Deserializer's instance for {impl['doc']} is not equal to the constructor's"))
+    if impl.get("is_image"):
+        if impl["ctor"] == "rejected" and impl["out"] == "rejected":
+            fails.append((f"extras:image-rejected:{site}", f"the image {impl['doc']} of a valid instance is rejected by Deserializer and constructor alike"))
+        elif impl.get("equal_orig") is False:
+            fails.append((f"extras:image-not-equal:{site}", f"deserializing the image {impl['doc']} of a valid instance gives a different instance"))
+    return fails
 
 
 # ------------------------------------------------------------------ C02: ill-typed constructor arguments
